@@ -498,3 +498,46 @@ def dc_cache_refresh(ctx, rule):
         need = {"Bbus", "Bf", "Pbusinj", "Pfinj", "Cft", "shift", "branch"}
         ctx.ob(rule, "pandapower.pf.run_dc_pf::_run_dc_pf::full-build-cache", need <= have, f"full build stores {sorted(have)}", fi.loc(top))
     return found
+
+
+def type_loop_complete(ctx, rule, fis, minimum=1):
+    """A `for <x> in [<literal list of element types>]:` loop handles every listed type: no return / break inside its body (an early
+    exit after handling one type silently skips the later ones).  Returns the number of loops checked."""
+    import ast
+    from ppsa.astutil import norm, fold, NOFOLD
+    n = 0
+    for fi in fis:
+        for lp in ast.walk(fi.node):
+            if not isinstance(lp, ast.For):
+                continue
+            v = fold(lp.iter)
+            if v is NOFOLD or not isinstance(v, (list, tuple)) or len(v) < 2:
+                continue
+            flat = [x for e in v for x in (e if isinstance(e, (list, tuple)) else [e])]
+            if not any(isinstance(x, str) for x in flat):
+                continue
+            n += 1
+            bad = []
+            def scan(body, depth):
+                for st in body:
+                    if isinstance(st, (ast.Return, ast.Break)) :
+                        bad.append(st)
+                    elif isinstance(st, (ast.For, ast.While)):
+                        # break inside a nested loop leaves only that loop; a return leaves the function
+                        for x in ast.walk(st):
+                            if isinstance(x, ast.Return):
+                                bad.append(x)
+                    elif isinstance(st, (ast.FunctionDef, ast.Lambda)):
+                        continue
+                    else:
+                        for f in ("body", "orelse", "finalbody", "handlers"):
+                            sub = getattr(st, f, None)
+                            if isinstance(sub, list):
+                                scan([h for h in sub if not isinstance(h, ast.ExceptHandler)] + [y for h in sub if isinstance(h, ast.ExceptHandler) for y in h.body], depth + 1)
+            scan(lp.body, 0)
+            ctx.ob(rule, f"{fi.module.name}::{fi.qualname}::for-{norm(lp.target, 30)}-in-{norm(lp.iter, 40)}", not bad,
+                   f"loop over {norm(lp.iter, 60)} handles every listed type" if not bad else
+                   f"`{norm(bad[0], 40)}` inside the loop over {norm(lp.iter, 60)}: the types after the one that reaches it are skipped", fi.loc(bad[0]) if bad else fi.loc(lp))
+    if n < minimum:
+        ctx.fail(f"{rule}: only {n} loops over literal element-type lists found (minimum {minimum})")
+    return n
